@@ -122,6 +122,12 @@ func definitelyNonNil(v ssa.Value) bool {
 		case "errors.New", "fmt.Errorf":
 			return true
 		}
+		if extraNonNil != nil && extraNonNil(x) {
+			return true
+		}
+		if f := x.Call.StaticCallee(); f != nil && InModule(f) && alwaysNonNilError(f) {
+			return true
+		}
 	case *ssa.Const:
 		return !x.IsNil() && x.Value != nil
 	case *ssa.UnOp:
